@@ -238,71 +238,11 @@ func spzRead(a *anchors, r *sx.Rep, read *ssa.Function, hdrT types.Type) {
 		hdrAlloc, _ = h.Data.(*ssa.Alloc)
 		r.Hold("PLANE-1", hkey, a.p.Pos(h.Call.Pos()), "header read first: binary.Read(LittleEndian, *Header)")
 	}
-	// roles of the plane calls
-	attrs := pointCloudAttrs(a, read)
-	roleOfValue := func(v ssa.Value) string {
-		for k, av := range attrs {
-			if av == v {
-				return k
-			}
-		}
-		// SH: ranged over, each element stored under a formatted key
-		for _, ref := range *v.Referrers() {
-			ia, ok := ref.(*ssa.IndexAddr)
-			if !ok {
-				continue
-			}
-			for _, r2 := range *ia.Referrers() {
-				ld, ok := r2.(*ssa.UnOp)
-				if !ok {
-					continue
-				}
-				for _, r3 := range *ld.Referrers() {
-					if mu, ok := r3.(*ssa.MapUpdate); ok && mu.Value == ssa.Value(ld) {
-						if c, ok := mu.Key.(*ssa.Call); ok && ssau.IsFunc(ssau.CalleeObj(c), "fmt", "Sprintf") {
-							if f, ok := ssau.ConstString(c.Call.Args[0]); ok && strings.HasPrefix(f, "SH_") {
-								return "SH"
-							}
-						}
-					}
-				}
-			}
-		}
-		return ""
-	}
+	// roles of the plane calls, located in Read's same-package call tree
+	pr := newPlaneRoles(a, read)
 	var planes []planeCall
-	for _, op := range ops[1:] {
-		if op.Kind != sx.IOCall {
-			r.Undecide("PLANE-1", name, a.p.Pos(op.Call.Pos()), "a plane is read inline ("+op.Kind.String()+") rather than by a plane reader function")
-			return
-		}
-		role := ""
-		for _, ref := range *op.Call.Referrers() {
-			if ex, ok := ref.(*ssa.Extract); ok && ex.Index == 0 {
-				role = roleOfValue(ex)
-			}
-		}
-		planes = append(planes, planeCall{op, role})
-		// the receiver is the header just read
-		if hdrAlloc != nil && len(op.Call.Call.Args) > 0 {
-			okRecv := false
-			if ld, ok := op.Call.Call.Args[0].(*ssa.UnOp); ok && ld.Op == token.MUL && ld.X == ssa.Value(hdrAlloc) {
-				okRecv = true
-			}
-			if op.Call.Call.Args[0] == ssa.Value(hdrAlloc) {
-				okRecv = true
-			}
-			if !okRecv {
-				r.Violate("PLANE-1", name+"→"+op.Callee.Name(), a.p.Pos(op.Call.Pos()), "the plane reader is not invoked on the header read from this stream")
-				return
-			}
-		}
-		for _, ret := range sx.SuccessReturns(read) {
-			if !op.Call.Block().Dominates(ret.Block()) {
-				r.Violate("PLANE-1", name+"→"+op.Callee.Name(), a.p.Pos(ret.Pos()), "a success return is reachable without reading this plane")
-				return
-			}
-		}
+	if !pr.collect(r, name, read, ops[1:], hdrAlloc, hdrT, 0, &planes) {
+		return
 	}
 	var want []string
 	for _, s := range spzPlaneOrder {
@@ -1422,4 +1362,240 @@ func fillHelper(fn *ssa.Function) int {
 		return -1
 	}
 	return si
+}
+
+// ---------------------------------------------------------------------------
+// plane roles through helpers
+
+// planeRoles resolves which mesh attribute a decoded plane becomes, following
+// the value through same-package helpers: directly (map key in the function
+// that calls the plane reader) or through a field of a package-local struct
+// that carries the decoded planes to the function that builds the point cloud.
+type planeRoles struct {
+	a         *anchors
+	closure   []*ssa.Function
+	attrs     map[*ssa.Function]map[string]ssa.Value
+	fieldRole map[*types.Var]string
+}
+
+func newPlaneRoles(a *anchors, read *ssa.Function) *planeRoles {
+	pr := &planeRoles{a: a, attrs: map[*ssa.Function]map[string]ssa.Value{}, fieldRole: map[*types.Var]string{}}
+	seen := map[*ssa.Function]bool{}
+	var add func(f *ssa.Function)
+	add = func(f *ssa.Function) {
+		if f == nil || f.Blocks == nil || seen[f] || f.Pkg != a.spz {
+			return
+		}
+		seen[f] = true
+		pr.closure = append(pr.closure, f)
+		ssau.AllInstrs(f, func(in ssa.Instruction) {
+			if c, ok := in.(ssa.CallInstruction); ok {
+				add(c.Common().StaticCallee())
+			}
+		})
+	}
+	add(read)
+	for _, f := range pr.closure {
+		pr.attrs[f] = pointCloudAttrs(a, f)
+	}
+	// fields of package-local structs whose content becomes an attribute
+	for _, f := range pr.closure {
+		ssau.AllInstrs(f, func(in ssa.Instruction) {
+			var fv *types.Var
+			var v ssa.Value
+			switch x := in.(type) {
+			case *ssa.UnOp:
+				if x.Op == token.MUL {
+					if fa, ok := x.X.(*ssa.FieldAddr); ok {
+						fv, v = ssau.FieldOf(fa), x
+					}
+				}
+			case *ssa.Field:
+				fv, v = ssau.FieldOf(x), x
+			}
+			if fv == nil || fv.Pkg() != a.spz.Pkg {
+				return
+			}
+			if role := pr.direct(f, v); role != "" {
+				pr.fieldRole[fv] = role
+			}
+		})
+	}
+	return pr
+}
+
+// direct: the value is put into an attribute map of fn under a constant key, or ranged over into SH_<k> keys.
+func (pr *planeRoles) direct(fn *ssa.Function, v ssa.Value) string {
+	for k, av := range pr.attrs[fn] {
+		if av == v {
+			return k
+		}
+	}
+	if v.Referrers() == nil {
+		return ""
+	}
+	for _, ref := range *v.Referrers() {
+		ia, ok := ref.(*ssa.IndexAddr)
+		if !ok {
+			continue
+		}
+		for _, r2 := range *ia.Referrers() {
+			ld, ok := r2.(*ssa.UnOp)
+			if !ok {
+				continue
+			}
+			for _, r3 := range *ld.Referrers() {
+				if mu, ok := r3.(*ssa.MapUpdate); ok && mu.Value == ssa.Value(ld) {
+					if c, ok := mu.Key.(*ssa.Call); ok && ssau.IsFunc(ssau.CalleeObj(c), "fmt", "Sprintf") {
+						if f, ok := ssau.ConstString(c.Call.Args[0]); ok && strings.HasPrefix(f, "SH_") {
+							return "SH"
+						}
+					}
+				}
+			}
+		}
+	}
+	return ""
+}
+
+// roleOf: role of the first result of a plane-reader call.
+func (pr *planeRoles) roleOf(fn *ssa.Function, call *ssa.Call) string {
+	for _, ref := range *call.Referrers() {
+		ex, ok := ref.(*ssa.Extract)
+		if !ok || ex.Index != 0 {
+			continue
+		}
+		if role := pr.direct(fn, ex); role != "" {
+			return role
+		}
+		// stored into a field of a carrier struct
+		for _, r2 := range *ex.Referrers() {
+			if st, ok := r2.(*ssa.Store); ok && st.Val == ssa.Value(ex) {
+				if fa, ok := st.Addr.(*ssa.FieldAddr); ok {
+					if role := pr.fieldRole[ssau.FieldOf(fa)]; role != "" {
+						return role
+					}
+				}
+			}
+		}
+	}
+	return ""
+}
+
+// isAggregator: a same-package function that reads nothing itself but calls further stream functions
+// whose results it does not simply forward (it sequences several plane readers).
+func isAggregator(a *anchors, fn *ssa.Function) ([]*sx.IOOp, bool) {
+	if fn == nil || fn.Blocks == nil || fn.Pkg != a.spz {
+		return nil, false
+	}
+	e := sx.NewEnv(fn)
+	ops := e.FindIO(func(f *ssa.Function) bool { return f.Pkg == a.spz })
+	if len(ops) < 2 {
+		return nil, false
+	}
+	for _, op := range ops {
+		if op.Kind != sx.IOCall || fillHelper(op.Callee) >= 0 {
+			return nil, false
+		}
+	}
+	fwd := 0
+	for _, op := range ops {
+		if forwardsResult(op.Call) {
+			fwd++
+		}
+	}
+	if fwd == len(ops) {
+		return nil, false
+	}
+	return ops, true
+}
+
+// collect appends the plane calls of fn (in stream order) to out, descending into aggregators.
+func (pr *planeRoles) collect(r *sx.Rep, name string, fn *ssa.Function, ops []*sx.IOOp, hdrAlloc *ssa.Alloc, hdrT types.Type, depth int, out *[]planeCall) bool {
+	a := pr.a
+	if !sx.TotallyOrdered(ops) {
+		r.Undecide("PLANE-1", name, a.p.Pos(fn.Pos()), "stream operations of "+fn.Name()+" are not a totally ordered sequence")
+		return false
+	}
+	var stream ssa.Value
+	for _, op := range ops {
+		if op.Kind != sx.IOCall {
+			r.Undecide("PLANE-1", name, a.p.Pos(op.Call.Pos()), "a plane is read inline ("+op.Kind.String()+") rather than by a plane reader function")
+			return false
+		}
+		if op.InLoop {
+			r.Undecide("PLANE-1", name, a.p.Pos(op.Call.Pos()), "a plane is read inside a loop")
+			return false
+		}
+		if stream == nil {
+			stream = op.Stream
+		} else if stream != op.Stream {
+			r.Violate("PLANE-1", name, a.p.Pos(op.Call.Pos()), "planes are read from different stream objects")
+			return false
+		}
+		// the receiver / header argument is the header read from this stream
+		okRecv := false
+		for _, arg := range op.Call.Call.Args {
+			if !types.Identical(arg.Type(), hdrT) && !(isPtrToType(arg.Type(), hdrT)) {
+				continue
+			}
+			switch {
+			case hdrAlloc != nil:
+				if ld, ok := arg.(*ssa.UnOp); ok && ld.Op == token.MUL && ld.X == ssa.Value(hdrAlloc) {
+					okRecv = true
+				}
+				if arg == ssa.Value(hdrAlloc) {
+					okRecv = true
+				}
+			default:
+				// inside an aggregator: the header is one of its parameters (possibly spilled)
+				if _, ok := arg.(*ssa.Parameter); ok {
+					okRecv = true
+				}
+				if ld, ok := arg.(*ssa.UnOp); ok && ld.Op == token.MUL {
+					if al, ok := ld.X.(*ssa.Alloc); ok {
+						for _, ref := range *al.Referrers() {
+							if st, ok := ref.(*ssa.Store); ok && st.Addr == ssa.Value(al) {
+								if _, isP := st.Val.(*ssa.Parameter); isP {
+									okRecv = true
+								}
+							}
+						}
+					}
+				}
+			}
+		}
+		if !okRecv {
+			r.Violate("PLANE-1", name+"→"+op.Callee.Name(), a.p.Pos(op.Call.Pos()), "the plane reader is not invoked on the header read from this stream")
+			return false
+		}
+		for _, ret := range sx.SuccessReturns(fn) {
+			if !op.Call.Block().Dominates(ret.Block()) {
+				r.Violate("PLANE-1", name+"→"+op.Callee.Name(), a.p.Pos(ret.Pos()), "a success return of "+fn.Name()+" is reachable without reading this plane")
+				return false
+			}
+		}
+		if sub, ok := isAggregator(a, op.Callee); ok {
+			if depth >= 3 {
+				r.Undecide("PLANE-1", name, a.p.Pos(op.Call.Pos()), "plane readers nested too deeply in helpers")
+				return false
+			}
+			// the aggregator must read from the stream it is handed
+			if sp := streamParamOf(op.Callee); sp == nil || len(sub) == 0 || sub[0].Stream != ssa.Value(sp) {
+				r.Undecide("PLANE-1", name, a.p.Pos(op.Call.Pos()), "helper "+op.Callee.Name()+" does not read the planes from its stream parameter")
+				return false
+			}
+			if !pr.collect(r, name, op.Callee, sub, nil, hdrT, depth+1, out) {
+				return false
+			}
+			continue
+		}
+		*out = append(*out, planeCall{op, pr.roleOf(fn, op.Call)})
+	}
+	return true
+}
+
+func isPtrToType(t, elem types.Type) bool {
+	p, ok := t.Underlying().(*types.Pointer)
+	return ok && types.Identical(p.Elem(), elem)
 }
